@@ -51,7 +51,7 @@ class Rig:
     """one broker + one Deribit market with an in-memory book; records the actions the market emits"""
 
     def __init__(self, instrs, now=360, token="ETH", wallet=Decimal(0), cash=Decimal(0), allow_neg=False, price=None,
-                 is_open=None, positions=None):
+                 is_open=None, positions=None, via_frame=False):
         from demeter import Broker, MarketInfo, MarketTypeEnum
         from demeter.deribit import DeribitOptionMarket, DeribitMarketStatus
         self.token_name = token
@@ -63,8 +63,13 @@ class Rig:
         self.market._record_action_callback = self.actions.append
         if price is None:
             price = float(instrs[0]["underlying"]) if instrs else 1600.0
-        self.market.set_market_status(DeribitMarketStatus(timestamp=ts_of(now), data=book_frame(instrs)),
-                                      price=pd.Series([price], index=[self.tok.name]))
+        if via_frame and instrs:
+            # the way the Actuator does it: the market owns the (time, instrument)-indexed frame and takes the bar's book out of it
+            self.market.data = deribit_frame([(now, instrs)])
+            self.market.set_market_status(DeribitMarketStatus(timestamp=ts_of(now), data=None), price=pd.Series([price], index=[self.tok.name]))
+        else:
+            self.market.set_market_status(DeribitMarketStatus(timestamp=ts_of(now), data=book_frame(instrs)),
+                                          price=pd.Series([price], index=[self.tok.name]))
         if is_open is not None:
             self.market.is_open = is_open
         if wallet is not None:
@@ -123,6 +128,14 @@ def dump_book(df: pd.DataFrame):
             "asks": dump_levels(row["asks"]), "bids": dump_levels(row["bids"]),
         })
     return out
+
+
+def frame_cells(rig):
+    """the order-book cells of the frame the market was given (None when the book was handed over directly)"""
+    df = rig.market._data
+    if df is None:
+        return None
+    return [(str(ix), copy.deepcopy(r["asks"]), copy.deepcopy(r["bids"])) for ix, r in df.iterrows()]
 
 
 def dump_balance(b):
@@ -223,6 +236,12 @@ def apply_op(rig: Rig, op):
         if t == "update":
             m.update()
             return "ok", None
+        if t == "estimate":          # read-only helper
+            return "ok", Fn(m.estimate_cost(op["name"], op["amount"], op.get("side", "buy"), op.get("priceTok")))
+        if t == "check":             # read-only helper (what buy/sell call first)
+            a, _, pr = m.check_transaction(op["name"], param_decimal(op["amount"]), param_decimal(op.get("priceTok")),
+                                           param_decimal(op.get("priceUsd")), op.get("side", "buy") == "buy", param_decimal(op.get("mult")))
+            return "ok", [Fn(a), None if pr is None else Fn(pr)]
         raise ValueError(t)
     except Exception as e:  # noqa: BLE001 — the exception class is the observation
         return type(e).__name__, None
@@ -344,16 +363,16 @@ def gen_size(rng, token):
     return rng.randint(1, 5)
 
 
-def gen_levels(rng, token, start_k, direction, n, offgrid=False):
+def gen_levels(rng, token, start_k, direction, n, offgrid=False, dense=False):
     """n levels; asks ascending from start_k (direction +1), bids descending (direction -1); distinct prices"""
     ls = []
     k = start_k
     for _ in range(n):
-        k += direction * rng.randint(1, 4)
+        k += direction * (rng.randint(1, 4) if not dense else rng.choice((1, 1, 1, 2, 3)))
         if k <= 0:
             break
         p = grid_price(k)
-        if offgrid:
+        if offgrid and not dense:
             p = float(repr(round(p + direction * rng.uniform(0.00001, 0.0004), rng.randint(5, 9))))
             if p <= 0:
                 break
@@ -386,13 +405,14 @@ def gen_instr(rng, idx, token="ETH", now=360, crossed=False, max_levels=12, roug
     kind = rng.choice(("CALL", "PUT"))
     strike = rng.choice(range(1000, 3001, 50))
     underlying = round(rng.uniform(1200, 2600), 2)
-    mark_k = rng.randint(4, 400)
+    dense = rng.random() < 0.15
+    mark_k = rng.randint(4, 400) if not dense else rng.randint(1000, 2400)      # prices 0.5-1.2: neighbouring grid levels lie within 0.1 %
     mark = grid_price(mark_k) if rng.random() < 0.6 else round(mark_k * 0.0005 + rng.uniform(-0.0002, 0.0002), 6)
     offgrid = rng.random() < 0.2
     na = rng.choice((0, 1, 1, 2, 3, 5, 8, max_levels))
     nb = rng.choice((0, 1, 1, 2, 3, 5, 8, max_levels))
-    asks = gen_levels(rng, token, mark_k, +1, na, offgrid)
-    bids = gen_levels(rng, token, mark_k, -1, nb, offgrid)
+    asks = gen_levels(rng, token, mark_k, +1, na, offgrid, dense)
+    bids = gen_levels(rng, token, mark_k, -1, nb, offgrid, dense)
     if crossed and rng.random() < 0.5:
         asks = gen_levels(rng, token, max(1, mark_k - 8), +1, na, offgrid)
     r = rng.random()
@@ -540,7 +560,16 @@ def gen_trade(rng, instrs, token, side=None, positions=None):
             op["priceUsd"], mtag = round(p * ins["underlying"], rng.choice((2, 6))), "limit-usd"
         if rng.random() < 0.5 and acls not in ("below-min", "beyond-depth"):
             lv = level_dec(l[1])
-            op["amount"], acls = rng.choice(((lv, "level-exact"), (lv + 1, "level+1"), (max(Decimal(1), lv - 1), "level-1"), (1, "one")))
+            step = Decimal(1) if token == "ETH" else Decimal("0.1")
+            pd_ = Decimal(str(p))
+            window = [x for x in levels if abs(Decimal(str(x[0])) - pd_) < pd_ / 1000]
+            wsum = sum((level_dec(x[1]) for x in window), Decimal(0))
+            choices = [(lv, "level-exact"), (lv + step, "level+1"), (max(step, lv - step), "level-1"), (step, "one")]
+            if len(window) > 1:
+                first = level_dec(window[0][1])          # the level the order snaps to is the best one inside the window
+                choices += [(wsum, "window-sum"), (first + step, "window-first+1"), (first, "window-first-exact"),
+                            (max(step, ((first + wsum) / 2).quantize(step)), "window-between")] * 2
+            op["amount"], acls = rng.choice(choices)
     elif mode < 0.36:
         op["priceUsd"], mtag = round(rng.uniform(1, 200), 2), "limit-usd-random"
     if rng.random() < 0.3:
